@@ -498,6 +498,28 @@ def coll_oracle(interp, env, f, args, t, bb, path):
             return TOP
         if nm in ("count", "len"):
             return len(it.items)
+        if nm in ("position", "find", "find_map") and len(args) == 2:
+            for i, x in enumerate(it.items):
+                r = _call1(interp, args[1], [x])
+                if nm == "find_map":
+                    if isinstance(r, Agg) and r.variant == "Some":
+                        return r
+                    if not (isinstance(r, Agg) and r.variant == "None"):
+                        return TOP
+                    continue
+                if not isinstance(r, bool):
+                    return TOP
+                if r:
+                    return some(i) if nm == "position" else some(x)
+            return NONE
+        if nm == "product":
+            vals = [load(interp, env, x) for x in it.items]
+            if all(isinstance(x, (int, float)) and not isinstance(x, bool) for x in vals):
+                r = 1.0 if "f64" in (f.get("ret") or "") or any(isinstance(x, float) for x in vals) else 1
+                for x in vals:
+                    r = r * x
+                return r
+            return TOP
         if nm == "sum":
             vals = [load(interp, env, x) for x in it.items]
             if all(isinstance(x, (int, float)) and not isinstance(x, bool) for x in vals):
@@ -524,6 +546,13 @@ def coll_oracle(interp, env, f, args, t, bb, path):
             return some(it.items[-1]) if it.items else NONE
         if nm == "nth" and isinstance(args[1], int):
             return some(it.items[args[1]]) if args[1] < len(it.items) else NONE
+    if dk in ("core::convert::TryInto::try_into", "core::convert::TryFrom::try_from") and isinstance(v0, Vec) and "; " in (f.get("ret") or ""):
+        import re as _re
+        m = _re.search(r"; (\d+)\]", f.get("ret") or "")
+        items = heap_get(interp, v0.vid)
+        if m:
+            from absint import ok as _ok, err as _err
+            return _ok(Agg("array", None, None, list(items))) if len(items) == int(m.group(1)) else _err(v0)
     if dk == "core::option::Option::cloned" or dk == "core::option::Option::copied":
         if isinstance(v0, Agg) and v0.variant == "Some":
             return some(load(interp, env, v0.fields[0]))
